@@ -157,6 +157,23 @@ claim('C08',
       'keeps the inside part of the segment and removes an outside part).',
       'DESIGN.md section 3, C08')
 
+claim('C09',
+      'effect classification of every use of the list + abstract interpretation of early exits + affine index-relation extraction of the loop nest + decision table of the predicate',
+      'Decides structurally for every list and tolerance: supersample uses its list only through '
+      'len(), slice copies and deletions (in-order subsequence of the same objects); every '
+      'mutating path has established len>=3 and tolerance>0; the window-extension loop nest, '
+      'reduced to affine relations between window v[s+a0:e+b0], deletion v[s+l0:e+h0] and the '
+      'loop bounds, satisfies nine inequalities implying that the first/last vertex survive, only '
+      'interior vertices of the last accepted unclamped window are deleted, and the accepted chord '
+      'end points survive later iterations; points_in_tolerance, interpreted on 1 and 2 interior '
+      'points, compares in every feasible region (sign of the projection t and of |d|^2-t) the '
+      'squared distance form of that region with tolerance^2, strictly, and returns True only '
+      'when all interior points passed; max_dist_from_n_points is max over interior points of '
+      'ffgeom.Segment(first,last).distanceToPoint. Not decided: floating point.',
+      'Trusted: Python ast, list slicing semantics, ink_extensions.ffgeom.Segment.distanceToPoint '
+      'as the Euclidean point-to-segment distance, vf/interp.py, vf/poly.py.',
+      'DESIGN.md section 3, C09')
+
 
 def build():
     checks = []
